@@ -33,6 +33,7 @@ package types
 // the two staking pools (when the token source and the validator's status differ), never from or to other accounts.
 //@ func (sk StakingKeeper).Delegate(ctx, delAddr, bondAmt, tokenSrc, validator, subtractAccount) (newShares, err)
 //@ trusted
+//@ requires [validator_is_a_record_currently_stored] exists v bytes :: has(staking.validators, v) && validator == staking.validators[v]
 //@ modifies staking.*, bank.bal
 //@ ensures [only_pool_accounts_touched] forall a addr :: a != module("bonded_tokens_pool") && a != module("not_bonded_tokens_pool") ==> bank.bal[a] == old(bank.bal[a])
 
